@@ -113,7 +113,8 @@ def run(ctx, res):
     for fmt in _reg.FORMATS:
         choices = _reg.cred_choices(fmt)
         for f in attest.applicable(fmt):
-            tasks.append(("reg", fmt, rng.choice(choices), (f,), ()))
+            for ch in choices:      # every credential choice: some faults only exist for one key type
+                tasks.append(("reg", fmt, ch, (f,), ()))
         if fmt in attest.CHAIN_FORMATS:
             from ..sim import ca
             for cf in ca.CHAIN_FAULTS:
